@@ -317,7 +317,7 @@ def oracle_outliers(c, r):
     if k >= 2 and (rows[0] != 0 or rows[-1] != n - 1):
         return f"outlier rows {rows} do not run from the first to the last row"
     ideal = [i * (n - 1) / (k - 1) for i in range(k)] if k >= 2 else [0] * k
-    if any(abs(a - b) > 1.0 + 1e-9 for a, b in zip(rows, ideal)):
+    if any(not abs(a - b) <= 1.0 + 1e-9 for a, b in zip(rows, ideal)):
         return f"outlier rows {rows} are not evenly spaced (ideal {ideal})"
     return None
 
